@@ -10,6 +10,7 @@ import (
 	"os"
 	"strings"
 	"sync"
+	"time"
 
 	kio "github.com/flanglet/kanzi-go/v2/io"
 	"kzverif/fio"
@@ -119,7 +120,11 @@ func execWriterRun(run *writerRun, data []byte) ([]tr.Ev, []byte) {
 		}
 		rec.Reset()
 	}
+	hung := false
 	doWrite := func(n int) (int, error, bool) {
+		if hung {
+			return 0, errHung, false
+		}
 		if n > len(data)-written {
 			n = len(data) - written
 		}
@@ -127,7 +132,7 @@ func execWriterRun(run *writerRun, data []byte) ([]tr.Ev, []byte) {
 		var m int
 		var e error
 		panicked := false
-		func() {
+		if !guard(func() {
 			defer func() {
 				if p := recover(); p != nil {
 					panicked = true
@@ -135,7 +140,12 @@ func execWriterRun(run *writerRun, data []byte) ([]tr.Ev, []byte) {
 				}
 			}()
 			m, e = w.Write(buf)
-		}()
+		}) {
+			flush()
+			evs = append(evs, tr.Ev{"ev": "Hang", "op": "Write", "len": n})
+			hung = true
+			return 0, errHung, false
+		}
 		if m > 0 && m <= n {
 			written += m
 		}
@@ -149,7 +159,10 @@ func execWriterRun(run *writerRun, data []byte) ([]tr.Ev, []byte) {
 	doClose := func() error {
 		var e error
 		panicked := false
-		func() {
+		if hung {
+			return errHung
+		}
+		if !guard(func() {
 			defer func() {
 				if p := recover(); p != nil {
 					panicked = true
@@ -157,7 +170,12 @@ func execWriterRun(run *writerRun, data []byte) ([]tr.Ev, []byte) {
 				}
 			}()
 			e = w.Close()
-		}()
+		}) {
+			flush()
+			evs = append(evs, tr.Ev{"ev": "Hang", "op": "Close", "len": 0})
+			hung = true
+			return errHung
+		}
 		flush()
 		dec := "na"
 		decmsg := ""
@@ -175,6 +193,9 @@ func execWriterRun(run *writerRun, data []byte) ([]tr.Ev, []byte) {
 		return e
 	}
 	doGetWritten := func() {
+		if hung {
+			return
+		}
 		evs = append(evs, tr.Ev{"ev": "GetWritten", "v": int(w.GetWritten()), "sinkLen": len(sink.Data)})
 	}
 
@@ -233,6 +254,26 @@ func execWriterRun(run *writerRun, data []byte) ([]tr.Ev, []byte) {
 	}
 	return evs, sink.Data
 }
+
+var errHung = fmt.Errorf("call did not return (watchdog)")
+
+// guard runs f and reports whether it returned within the watchdog delay. A call that never returns is a violation
+// of C07/C03 (every call terminates); its goroutines are abandoned and die with the process.
+func guard(f func()) bool {
+	done := make(chan struct{})
+	go func() {
+		defer close(done)
+		f()
+	}()
+	select {
+	case <-done:
+		return true
+	case <-time.After(watchdogDelay):
+		return false
+	}
+}
+
+var watchdogDelay = 45 * time.Second
 
 func errText(e error) string {
 	if e == nil {
